@@ -9,6 +9,7 @@ use super::c01_tcp::Failure;
 use serde_json::{Value, json};
 use std::collections::HashSet;
 use std::net::{IpAddr, SocketAddr};
+use std::sync::atomic::AtomicBool;
 use std::sync::{Arc, Mutex};
 use std::time::{Duration, Instant};
 use tokio::net::{TcpStream, UdpSocket};
@@ -67,10 +68,32 @@ pub enum Topo {
     /// real-time scenario (thorough tier): one exchange, silence for 2 * UDP_PRUNE_TIMEOUT + 1 s
     /// (every flow table entry is pruned), another exchange: it must work again (a new flow is fine)
     Idle,
+    /// real-time scenario (thorough tier): one exchange, silence for UDP_PRUNE_TIMEOUT + 2 s (between
+    /// one and two prune timeouts: one side of the tunnel may have forgotten the flow while the
+    /// other still remembers it), one more exchange from the SAME local socket. Judged on the
+    /// FIRST transmission after the gap: it has to reach the target (no retransmission needed)
+    IdleGap,
+    /// SOCKS5 only: one association, one exchange, then ONE malformed datagram sent to the relay
+    /// address from ANOTHER local socket, then two more exchanges of the legitimate client: they
+    /// must work (anybody can send anything to a UDP port). The three variants are the strays:
+    /// 2 bytes `00 00`
+    StrayShort,
+    /// a header with an ATYP that does not exist: `00 00 00 09 01 02 03`
+    StrayAtyp,
+    /// an IPv4 header that ends inside the address: `00 00 00 01 7f 00`
+    StrayTruncated,
 }
 
 /// length of the payloads of the real-time scenarios
 pub const SLOW_LEN: usize = 32;
+/// length of the payloads of the stray-datagram scenarios
+pub const STRAY_LEN: usize = 32;
+/// silence of the idle-gap scenario beyond UDP_PRUNE_TIMEOUT
+pub const GAP_EXTRA_S: u64 = 2;
+/// how long the first datagram after the idle gap may take to the target (no retransmission before)
+pub const GAP_FIRST_TX_MS: u64 = 2000;
+/// leg number inside the payload of the control exchange of the stray-datagram scenarios (no real leg has it)
+const CONTROL_LEG: usize = 3;
 
 pub fn prune_timeout() -> Duration {
     rusty_penguin_lib::config::UDP_PRUNE_TIMEOUT
@@ -80,9 +103,20 @@ impl Topo {
     /// the topologies of the ordinary matrix
     pub const ALL: [Topo; 6] = [Topo::One, Topo::Three, Topo::Shared, Topo::TwoPorts, Topo::TwoHosts, Topo::Varying];
     /// the real-time topologies (about 2 * UDP_PRUNE_TIMEOUT of wall time each, mostly asleep)
-    pub const SLOW: [Topo; 2] = [Topo::Steady, Topo::Idle];
+    pub const SLOW: [Topo; 3] = [Topo::Steady, Topo::Idle, Topo::IdleGap];
+    /// the stray-datagram topologies (SOCKS5 UDP only, one payload length, both tiers)
+    pub const STRAY: [Topo; 3] = [Topo::StrayShort, Topo::StrayAtyp, Topo::StrayTruncated];
     pub fn slow(self) -> bool {
-        matches!(self, Topo::Steady | Topo::Idle)
+        matches!(self, Topo::Steady | Topo::Idle | Topo::IdleGap)
+    }
+    /// the malformed datagram of a stray-datagram topology, and its name inside violation keys
+    pub fn stray(self) -> Option<(&'static [u8], &'static str)> {
+        match self {
+            Topo::StrayShort => Some((&[0, 0], "2-bytes")),
+            Topo::StrayAtyp => Some((&[0, 0, 0, 9, 1, 2, 3], "unknown-atyp")),
+            Topo::StrayTruncated => Some((&[0, 0, 0, 1, 127, 0], "truncated-ipv4-header")),
+            _ => None,
+        }
     }
     pub fn name(self) -> &'static str {
         match self {
@@ -94,10 +128,14 @@ impl Topo {
             Topo::Varying => "1-client-varying-payload-lengths",
             Topo::Steady => "steady-sender-silent-target",
             Topo::Idle => "idle-longer-than-prune-timeout",
+            Topo::IdleGap => "idle-between-one-and-two-prune-timeouts",
+            Topo::StrayShort => "stray-datagram-2-bytes-to-relay",
+            Topo::StrayAtyp => "stray-datagram-unknown-atyp-to-relay",
+            Topo::StrayTruncated => "stray-datagram-truncated-ipv4-header-to-relay",
         }
     }
     pub fn parse(s: &str) -> Option<Self> {
-        Self::ALL.into_iter().chain(Self::SLOW).find(|e| e.name() == s)
+        Self::ALL.into_iter().chain(Self::SLOW).chain(Self::STRAY).find(|e| e.name() == s)
     }
 }
 
@@ -119,6 +157,7 @@ impl UdpCase {
             "kind": "udp", "entry": self.kind.name(), "payload_len": self.size, "topology": self.topo.name(),
             "exchanges_per_leg": self.exchanges(),
             "udp_prune_timeout_s": prune_timeout().as_secs(),
+            "stray_datagram_hex": self.topo.stray().map(|(d, _)| vcommon::report::hex(d)),
             "payload_rule": "payload length of exchange seq = len, except in the varying-lengths topology (len, 3, len+500, 0, len+1); request(len, leg, seq): len 1 -> [0x40|leg<<4|seq]; len>=2 -> [0xC0|leg, seq, xorshift64* stream]; reply = request XOR mask bytewise, mask 0xA5 for target A and 0x5A for target B; exchange seq goes to target seq%2 in the two-target topologies; see c01_udp.rs",
             "requests_hex": (0..self.legs().len()).map(|l| (0..self.exchanges().min(4)).map(|q| { let r = request(self.len_at(q), l, q); vcommon::report::hex(&r[..r.len().min(16)]) }).collect::<Vec<_>>()).collect::<Vec<_>>(),
         })
@@ -136,7 +175,8 @@ impl UdpCase {
             (Topo::Three, false) => vec![(0, 0), (1, 0), (2, 0)],
             (Topo::Three, true) => vec![(0, 0), (1, 1), (2, 2)],
             (Topo::Shared, _) => vec![(0, 0), (0, 1)],
-            (Topo::TwoPorts | Topo::TwoHosts | Topo::Steady | Topo::Idle, _) => vec![(0, 0)],
+            (Topo::TwoPorts | Topo::TwoHosts | Topo::Steady | Topo::Idle | Topo::IdleGap, _) => vec![(0, 0)],
+            (Topo::StrayShort | Topo::StrayAtyp | Topo::StrayTruncated, _) => vec![(0, 0)],
         }
     }
     /// number of request datagrams (with distinct payloads) a leg sends
@@ -144,14 +184,15 @@ impl UdpCase {
         match self.topo {
             // one per second at t = 0, 1, ..., 2T+3
             Topo::Steady => 2 * prune_timeout().as_secs() as usize + 4,
-            Topo::Idle => 2,
+            Topo::Idle | Topo::IdleGap => 2,
             Topo::Varying => 5,
             _ => EXCHANGES,
         }
     }
-    /// Is this point part of the matrix? (the two-target topologies need a per-datagram destination)
+    /// Is this point part of the matrix? (the two-target topologies need a per-datagram destination,
+    /// the stray-datagram ones a relay port)
     pub fn valid(&self) -> bool {
-        !matches!(self.topo, Topo::TwoPorts | Topo::TwoHosts) || self.kind.socks()
+        !(matches!(self.topo, Topo::TwoPorts | Topo::TwoHosts) || self.topo.stray().is_some()) || self.kind.socks()
     }
     /// payload length of exchange `seq` (constant except in the varying-lengths topology)
     pub fn len_at(&self, seq: usize) -> usize {
@@ -301,53 +342,196 @@ struct LegResult {
     completed: usize,
     /// ... of which the answer was not the expected reply
     wrong: usize,
-    /// (key, description) to use instead of the generic "reply missing" when `completed` falls short
-    missing: Option<(String, String)>,
+    /// (key, description, deadline-type) to use instead of the generic "reply missing" when `completed` falls short
+    missing: Option<(String, String, bool)>,
+    /// idle-gap scenario: the first transmission after the gap was not at the target within
+    /// GAP_FIRST_TX_MS (before any retransmission); how many datagrams the target had seen by then
+    first_tx_after_gap_lost: Option<usize>,
+}
+
+/// The local end of a leg.
+struct LegIo {
+    sock: Arc<UdpSocket>,
+    log: Log,
+    note: Arc<Notify>,
+    socks: bool,
+    entry: SocketAddr,
+}
+
+/// Transmit `wire` to the entry point once per element of `waits` (stopping as soon as the
+/// exchange is answered) and wait that long for the answer each time. `first_attempt` is the
+/// number of transmissions of this exchange made before (a transmission other than the very
+/// first counts as a retransmission).
+#[allow(clippy::too_many_arguments)]
+async fn transmit(io: &LegIo, wire: &[u8], want: &[u8], seq: usize, base: usize, earlier: &[Vec<u8>], waits: &[u64], first_attempt: usize, tk: usize, res: &mut LegResult) -> Option<bool> {
+    let mut ok = None;
+    for (k, w) in waits.iter().enumerate() {
+        if io.sock.send_to(wire, io.entry).await.is_ok() {
+            res.sent += 1;
+            res.sent_to[tk] += 1;
+            if first_attempt + k > 0 {
+                res.retrans += 1;
+            }
+        }
+        let until = Instant::now() + Duration::from_millis(*w);
+        loop {
+            let notified = io.note.notified();
+            ok = answered(&io.log, io.socks, io.entry, want, seq, base, earlier);
+            if ok.is_some() {
+                break;
+            }
+            let now = Instant::now();
+            if now >= until {
+                break;
+            }
+            let _ = tokio::time::timeout(until - now, notified).await;
+        }
+        if ok.is_some() {
+            break;
+        }
+    }
+    ok
+}
+
+/// What the stray-datagram scenarios need besides the leg itself.
+#[derive(Clone)]
+pub struct StrayCtx {
+    /// the SOCKS entry point (TCP)
+    proxy: SocketAddr,
+    client_done: Arc<AtomicBool>,
+    deadline: Instant,
+}
+
+/// Control exchange of the stray-datagram scenarios: a FRESH association at the same entry
+/// point (same client, same server, same target), one exchange with the usual loss tolerance.
+/// Ok(milliseconds the answered transmission took) or Err(what went wrong).
+async fn control_exchange(ctx: &StrayCtx, target: &(SocketAddr, Option<String>), waits: &[u64]) -> Result<u64, String> {
+    let mut ctl = env::connect_tcp_entry(ctx.proxy, &ctx.client_done, ctx.deadline).await.map_err(|e| format!("connect to the SOCKS entry point: {e:?}"))?;
+    let mut relay = match tokio::time::timeout(ctx.deadline.saturating_duration_since(Instant::now()), proto::socks5_udp_associate(&mut ctl)).await {
+        Ok(Ok(a)) => a,
+        Ok(Err(sh)) => return Err(format!("UDP ASSOCIATE: {sh:?}")),
+        Err(_) => return Err("UDP ASSOCIATE: no answer".into()),
+    };
+    if relay.ip().is_unspecified() {
+        relay.set_ip(IpAddr::from([127, 0, 0, 1]));
+    }
+    let sock = UdpSocket::bind("127.0.0.1:0").await.map_err(|e| format!("bind: {e}"))?;
+    let req = request(STRAY_LEN, CONTROL_LEG, 0);
+    let want = reply_of(&req, MASKS[0]);
+    let wire = proto::build_udp_request(target.0, target.1.as_deref(), &req);
+    let mut buf = vec![0u8; 65536 + 64];
+    for w in waits {
+        let sent_at = Instant::now();
+        sock.send_to(&wire, relay).await.map_err(|e| format!("send: {e}"))?;
+        let until = sent_at + Duration::from_millis(*w);
+        loop {
+            let left = until.saturating_duration_since(Instant::now());
+            if left.is_zero() {
+                break;
+            }
+            match tokio::time::timeout(left, sock.recv_from(&mut buf)).await {
+                Ok(Ok((n, src))) => {
+                    if src == relay && client_view(true, &buf[..n]).is_ok_and(|p| p == want) {
+                        return Ok(sent_at.elapsed().as_millis() as u64);
+                    }
+                }
+                Ok(Err(_)) => tokio::time::sleep(Duration::from_millis(1)).await,
+                Err(_) => break,
+            }
+        }
+    }
+    drop(ctl);
+    Err(format!("no reply after {} transmissions over {} ms", waits.len(), waits.iter().sum::<u64>()))
 }
 
 #[allow(clippy::too_many_arguments)]
-async fn run_leg(leg: usize, case: UdpCase, sock: Arc<UdpSocket>, log: Log, note: Arc<Notify>, entry: SocketAddr, targets: Vec<(SocketAddr, Option<String>)>, short: bool) -> LegResult {
+async fn run_leg(leg: usize, case: UdpCase, sock: Arc<UdpSocket>, log: Log, note: Arc<Notify>, entry: SocketAddr, targets: Vec<(SocketAddr, Option<String>)>, short: bool, tlog: Log, stray_ctx: Option<StrayCtx>) -> LegResult {
     let socks = case.kind.socks();
-    let mut res = LegResult { sent: 0, sent_to: [0; 2], retrans: 0, completed: 0, wrong: 0, missing: None };
+    let mut res = LegResult { sent: 0, sent_to: [0; 2], retrans: 0, completed: 0, wrong: 0, missing: None, first_tx_after_gap_lost: None };
     let mut earlier: Vec<Vec<u8>> = Vec::new();
     let waits = if short { WAITS_SHORT_MS } else { WAITS_MS };
+    let io = LegIo { sock, log, note, socks, entry };
+    let mut stray_sent_at: Option<Instant> = None;
     for seq in 0..case.exchanges() {
         if case.topo == Topo::Idle && seq == 1 {
             // long enough for the client's map entry AND the server's forwarder to be pruned
             tokio::time::sleep(2 * prune_timeout() + Duration::from_secs(1)).await;
+        }
+        if case.topo == Topo::IdleGap && seq == 1 {
+            // the server's forwarder of this flow has given up (UDP_PRUNE_TIMEOUT without traffic);
+            // whether the client still knows the flow depends on its prune tick
+            tokio::time::sleep(prune_timeout() + Duration::from_secs(GAP_EXTRA_S)).await;
+        }
+        if let (Some((stray, _)), 1) = (case.topo.stray(), seq) {
+            // from a socket that is NOT the one of the association's client
+            match UdpSocket::bind("127.0.0.1:0").await {
+                Ok(other) => {
+                    if other.send_to(stray, entry).await.is_err() {
+                        res.missing = Some(("machinery".into(), "cannot send the stray datagram".into(), false));
+                        return res;
+                    }
+                    stray_sent_at = Some(Instant::now());
+                }
+                Err(e) => {
+                    res.missing = Some(("machinery".into(), format!("bind the stray socket: {e}"), false));
+                    return res;
+                }
+            }
         }
         let req = request(case.len_at(seq), leg, seq);
         let tk = case.target_idx(leg, seq);
         let (target, domain) = &targets[tk];
         let want = reply_of(&req, MASKS[tk]);
         let wire = if socks { proto::build_udp_request(*target, domain.as_deref(), &req) } else { req.clone() };
-        let mut ok = None;
-        let base = lk(&log).len();
-        for (attempt, w) in waits.iter().enumerate() {
-            if sock.send_to(&wire, entry).await.is_ok() {
-                res.sent += 1;
-                res.sent_to[tk] += 1;
-                if attempt > 0 {
-                    res.retrans += 1;
+        let base = lk(&io.log).len();
+        let at_target = || lk(&tlog).iter().filter(|(_, d)| *d == req).count();
+        let ok = if case.topo == Topo::IdleGap && seq == 1 {
+            // the first transmission is judged on its own: GAP_FIRST_TX_MS for it to show up at the
+            // target; only then the usual retransmissions (so that the scenario goes on either way)
+            let mut ok = transmit(&io, &wire, &want, seq, base, &earlier, &[GAP_FIRST_TX_MS], 0, tk, &mut res).await;
+            if at_target() == 0 {
+                res.first_tx_after_gap_lost = Some(lk(&tlog).len());
+            }
+            if ok.is_none() {
+                ok = transmit(&io, &wire, &want, seq, base, &earlier, &waits[1..], 1, tk, &mut res).await;
+            }
+            ok
+        } else if let (Some((stray, variant)), Some(ctx), true) = (case.topo.stray(), stray_ctx.as_ref(), seq >= 1) {
+            // three transmissions; if none is answered: is it this association only? A fresh
+            // association through the same client, server and target is tried (with the full loss
+            // tolerance), then the old one once more.
+            let mut ok = transmit(&io, &wire, &want, seq, base, &earlier, &waits[..3], 0, tk, &mut res).await;
+            if ok.is_none() {
+                match control_exchange(ctx, &targets[0], &waits).await {
+                    Ok(rtt_ms) => {
+                        let last_wait = (20 * rtt_ms).max(1000);
+                        ok = transmit(&io, &wire, &want, seq, base, &earlier, &[last_wait], 3, tk, &mut res).await;
+                        if ok.is_none() {
+                            res.missing = Some((
+                                format!("udp.association-killed-by-stray-datagram.{variant}"),
+                                format!(
+                                    "the first exchange of the association worked; then ANOTHER local socket sent the {}-byte datagram {} to the relay address {entry}; after that, exchange {seq} of the legitimate client got no reply to 4 transmissions over {} ms (the target received that request {} time(s)), although in between a fresh association at the same SOCKS entry point exchanged a datagram with the same target in {rtt_ms} ms: the association is dead, {} ms after the stray datagram",
+                                    stray.len(),
+                                    vcommon::report::hex(stray),
+                                    waits[..3].iter().sum::<u64>() + last_wait,
+                                    at_target(),
+                                    stray_sent_at.map_or(0, |t| t.elapsed().as_millis())
+                                ),
+                                false,
+                            ));
+                            return res;
+                        }
+                    }
+                    Err(_) => {
+                        // nothing works any more: not specific to this association; the generic verdict
+                        ok = transmit(&io, &wire, &want, seq, base, &earlier, &waits[3..], 3, tk, &mut res).await;
+                    }
                 }
             }
-            let until = Instant::now() + Duration::from_millis(*w);
-            loop {
-                let notified = note.notified();
-                ok = answered(&log, socks, entry, &want, seq, base, &earlier);
-                if ok.is_some() {
-                    break;
-                }
-                let now = Instant::now();
-                if now >= until {
-                    break;
-                }
-                let _ = tokio::time::timeout(until - now, notified).await;
-            }
-            if ok.is_some() {
-                break;
-            }
-        }
+            ok
+        } else {
+            transmit(&io, &wire, &want, seq, base, &earlier, &waits, 0, tk, &mut res).await
+        };
         match ok {
             None => {
                 if case.topo == Topo::Idle && seq == 1 {
@@ -360,6 +544,20 @@ async fn run_leg(leg: usize, case: UdpCase, sock: Arc<UdpSocket>, log: Log, note
                             waits.len(),
                             waits.iter().sum::<u64>()
                         ),
+                        true,
+                    ));
+                }
+                if case.topo == Topo::IdleGap && seq == 1 {
+                    res.missing = Some((
+                        format!("udp.reply.missing-after-idle-gap.{}", case.kind.family()),
+                        format!(
+                            "the first exchange worked; after {} s of silence (UDP_PRUNE_TIMEOUT is {} s) the same local client sent again ({} transmissions over {} ms) and no reply came back",
+                            prune_timeout().as_secs() + GAP_EXTRA_S,
+                            prune_timeout().as_secs(),
+                            waits.len(),
+                            GAP_FIRST_TX_MS + waits[1..].iter().sum::<u64>()
+                        ),
+                        true,
                     ));
                 }
                 return res;
@@ -380,7 +578,7 @@ async fn run_steady(case: UdpCase, sock: Arc<UdpSocket>, log: Log, note: Arc<Not
     let socks = case.kind.socks();
     let fam = case.kind.family();
     let nx = case.exchanges();
-    let mut res = LegResult { sent: 0, sent_to: [0; 2], retrans: 0, completed: 0, wrong: 0, missing: None };
+    let mut res = LegResult { sent: 0, sent_to: [0; 2], retrans: 0, completed: 0, wrong: 0, missing: None, first_tx_after_gap_lost: None };
     let wire_of = |seq: usize| {
         let req = request(case.len_at(seq), 0, seq);
         if socks { proto::build_udp_request(target.0, target.1.as_deref(), &req) } else { req }
@@ -423,6 +621,7 @@ async fn run_steady(case: UdpCase, sock: Arc<UdpSocket>, log: Log, note: Arc<Not
         res.missing = Some((
             format!("udp.request.lost-while-steady-sending.{fam}"),
             format!("after {} s of sending one datagram per second, the last request (6 transmissions) never reached the target; the target received {arrived} of the {} datagrams sent", nx - 1, res.sent),
+            true,
         ));
         return res;
     };
@@ -462,6 +661,7 @@ async fn run_steady(case: UdpCase, sock: Arc<UdpSocket>, log: Log, note: Arc<Not
                     waits.len(),
                     waits.iter().sum::<u64>()
                 ),
+                true,
             ));
         }
     }
@@ -634,7 +834,8 @@ pub async fn run_udp(envr: &Env, case: &UdpCase, deadline_s: u64, short_waits: b
                 handles.push(tokio::spawn(run_steady(case.clone(), socks_v[*si].clone(), logs[*si].clone(), notes[*si].clone(), entry_addrs[*ei], targets[0].clone(), tsocks[0].clone(), tlogs[0].clone(), short_waits)));
                 continue;
             }
-            handles.push(tokio::spawn(run_leg(l, case.clone(), socks_v[*si].clone(), logs[*si].clone(), notes[*si].clone(), entry_addrs[*ei], targets.clone(), short_waits)));
+            let stray_ctx = case.topo.stray().map(|_| StrayCtx { proxy: SocketAddr::from(([127, 0, 0, 1], leases[0].port)), client_done: client_done.clone(), deadline });
+            handles.push(tokio::spawn(run_leg(l, case.clone(), socks_v[*si].clone(), logs[*si].clone(), notes[*si].clone(), entry_addrs[*ei], targets.clone(), short_waits, tlogs[0].clone(), stray_ctx)));
         }
         for h in handles {
             leg_results.push(h.await.ok());
@@ -690,6 +891,10 @@ pub async fn run_udp(envr: &Env, case: &UdpCase, deadline_s: u64, short_waits: b
             sources.insert(*src);
             let for_here = all_lq.iter().any(|(l, q)| case.target_idx(*l, *q) == k && request(case.len_at(*q), *l, *q) == *data);
             if for_here {
+                continue;
+            }
+            if case.topo.stray().is_some() && *data == request(STRAY_LEN, CONTROL_LEG, 0) {
+                // the control exchange (a fresh association) of a stray-datagram scenario
                 continue;
             }
             if let Some((l, q)) = all_lq.iter().find(|(l, q)| request(case.len_at(*q), *l, *q) == *data) {
@@ -828,9 +1033,21 @@ pub async fn run_udp(envr: &Env, case: &UdpCase, deadline_s: u64, short_waits: b
         }
         stats.duplicates += recv_per_leg[l].saturating_sub(r.completed as u64);
         wrong_answers += r.wrong;
+        if let Some(seen) = r.first_tx_after_gap_lost {
+            push(
+                format!("udp.request.lost-after-idle-gap.{fam}"),
+                format!(
+                    "the first exchange worked; after {} s of silence (UDP_PRUNE_TIMEOUT is {} s: between one and two prune timeouts) the same local socket sent the next request to the same entry point: that datagram was not at the target {GAP_FIRST_TX_MS} ms later (the target had received {seen} datagram(s) by then, all of the first exchange); {}",
+                    prune_timeout().as_secs() + GAP_EXTRA_S,
+                    prune_timeout().as_secs(),
+                    if r.completed == nx { format!("only a retransmission got through ({} retransmission(s) in this scenario)", r.retrans) } else { "the retransmissions got no reply either".to_string() }
+                ),
+                true,
+            );
+        }
         if r.completed < nx {
-            if let Some((k, d)) = &r.missing {
-                push(k.clone(), format!("{d}; datagrams received by the local client from its entry point: {}", recv_per_leg[l]), true);
+            if let Some((k, d, dl)) = &r.missing {
+                push(k.clone(), format!("{d}; datagrams received by the local client from its entry point: {}", recv_per_leg[l]), *dl);
                 continue;
             }
             let at_target = tl.iter().filter(|(_, d)| *d == request(case.len_at(r.completed), l, r.completed)).count();
